@@ -21,3 +21,45 @@ Proof. exact flatten_stride. Qed.
 
 Theorem C11_d1_point_distance : forall k a b, pdist k [a] [b] = pd1 k a b.
 Proof. exact ndim1_pdist. Qed.
+
+(* THE C N-DIMENSIONAL KERNELS AS WRITTEN (Gen_cdist.v / Gen_cwpsk.v, regenerated whole by tools/cfun.py).  The
+   coordinate loop `for (d_i...) d += SEDIST(s1[i_idx + d_i], s2[j_idx + d_i])` over the series stored point after
+   point IS the vector point distance of the model, so dtw_distance_ndim returns the optimum over warping paths of
+   the vector series, and with one coordinate per point it returns what the univariate kernel dtw_distance returns
+   on the same numbers - for every series, window, psi, penalty, max_step, bound, pruning on or off. *)
+From DV Require Import Engines Prune DtwProps CLang CDistSpec.
+From DVGen Require Import Gen_cdist.
+
+Theorem C11_c_ndim_kernel_is_vector_dtw :
+  forall (window p m mld : Z) (p1b p1e p2b p2e : nat) (junk : Z -> cost), (0 <= window)%Z -> (0 <= p)%Z ->
+  forall (s1 s2 : list point) (d : nat),
+  (forall q, In q s1 -> length q = d) -> (forall q, In q s2 -> length q = d) ->
+  (1 <= length s1)%nat -> (1 <= length s2)%nat -> (p1b < length s1 \/ p2e < length s2)%nat ->
+  forall (ce ced cub : cost) (idist : Z) (md : cost) (prune : bool), (idist =? 1)%Z = false ->
+  c_dtw_distance_ndim ce ced cub junk (concat s1) (Z.of_nat (length s1)) (concat s2) (Z.of_nat (length s2)) (Z.of_nat d)
+                 idist md mld (Fin m) false (Fin p) (Z.of_nat p1b) (Z.of_nat p1e) (Z.of_nat p2b) (Z.of_nat p2e) prune window =
+  ((if too_long (c_to_u (cs_of window p m mld (psi4 p1b p1e p2b p2e) SqEuclid)) s1 s2 then RPlain Inf
+    else RSqrt (bounded (c_bound_sq prune ced md)
+                  (dtw_value (c_to_u (cs_of window p m mld (psi4 p1b p1e p2b p2e) SqEuclid)) s1 s2))), true).
+Proof. exact c_dtw_distance_ndim_spec. Qed.
+
+Lemma concat_scal (f : list Z) : concat (scal f) = f.
+Proof. induction f as [|a f IH]; cbn; [reflexivity|]. f_equal. exact IH. Qed.
+
+Theorem C11_c_ndim_kernel_with_one_coordinate_is_the_univariate_kernel :
+  forall (window p m mld : Z) (p1b p1e p2b p2e : nat) (junk : Z -> cost), (0 <= window)%Z -> (0 <= p)%Z ->
+  forall (f1 f2 : list Z),
+  (1 <= length f1)%nat -> (1 <= length f2)%nat -> (p1b < length f1 \/ p2e < length f2)%nat ->
+  forall (ce ced cub : cost) (idist : Z) (md : cost) (prune : bool), (idist =? 1)%Z = false ->
+  c_dtw_distance_ndim ce ced cub junk f1 (Z.of_nat (length f1)) f2 (Z.of_nat (length f2)) 1
+                 idist md mld (Fin m) false (Fin p) (Z.of_nat p1b) (Z.of_nat p1e) (Z.of_nat p2b) (Z.of_nat p2e) prune window =
+  c_dtw_distance ce ced cub junk f1 (Z.of_nat (length f1)) f2 (Z.of_nat (length f2))
+                 idist md mld (Fin m) false (Fin p) (Z.of_nat p1b) (Z.of_nat p1e) (Z.of_nat p2b) (Z.of_nat p2e) prune window.
+Proof.
+  intros window p m mld p1b p1e p2b p2e junk Hw Hp f1 f2 H1 H2 Hpsi ce ced cub idist md prune Hid.
+  rewrite (c_dtw_distance_spec window p m mld p1b p1e p2b p2e junk Hw Hp f1 f2 ce ced cub idist md prune H1 H2 Hpsi Hid).
+  assert (Hd : forall f q, In q (scal f) -> length q = 1%nat).
+  { intros f q Hq. unfold scal in Hq. apply in_map_iff in Hq. destruct Hq as (z & <- & _). reflexivity. }
+  pose proof (c_dtw_distance_ndim_spec window p m mld p1b p1e p2b p2e junk Hw Hp (scal f1) (scal f2) 1 (Hd f1) (Hd f2)) as HN.
+  rewrite !scal_length, !concat_scal in HN. exact (HN H1 H2 Hpsi ce ced cub idist md prune Hid).
+Qed.
